@@ -4,8 +4,7 @@
   Subject: the model of tsdb/index/tsi1 in `Influx.Model.TSI` (written from the code, tied
   to the real package by the correspondence run of `bin/check C14`).
 -/
-import Influx.Model.TSI
-import Influx.Spec.C14
+import Influx.Lemmas.TSIFinal
 
 namespace Influx.Props.C14
 open Influx.Model.TSI Influx.Spec.C14
@@ -47,5 +46,87 @@ theorem C14_roll_dependence :
     ((run {} (rollWitness true)).map (·.2)).getLast? = some (.names ["k1", "k2"]) ∧
     ((run {} (rollWitness false)).map (·.2)).getLast? = some (.names ["k2"]) := by
   constructor <;> decide
+
+/-! ### what does hold, for every history of the engine's flows -/
+
+/-- **C14 (partial: stale tag listings tolerated; no index-only drop, no crash).**
+    For EVERY history of series creations, series drops and measurement drops done the way
+    the engine does them (`Index.DropSeries`, `DropMeasurementIfSeriesNotExist`,
+    `SeriesFile.DeleteSeriesID`), interleaved in any way with log rolls, log-file compactions,
+    index-file merges and reopen (log replay, rebuild of the series-id set, background
+    compaction to its fixpoint), on 1 or 8 partitions:
+    * the measurement names are exactly those of the live series,
+    * the measurement / tag-key / tag-value series-id sets (through the series-file filter and the
+      tag-value cache) are exactly those of the live series,
+    * the tag-key and tag-value listings contain at least the keys / values of the live series.
+    What is missing from the full statement: equality of the two listings (`C14_full_fails`);
+    shard-local drops and crashes (findings `phantom-in-view`, fix `C14-undelete-tag-on-series-add`)
+    are judged on the real code by the checker only. -/
+theorem C14_partial (ops : List Op) (h : ops.all Allowed = true) :
+    holdsWeakly (run {} ops) = true := by
+  obtain ⟨k, hk, hr⟩ := sim_run ops h {} {} sim_init
+  unfold holdsWeakly gradeOf
+  have : finalCands {} (run {} ops) = ⟨[k]⟩ := hk
+  rw [this]
+  simp only [List.foldl_cons, List.foldl_nil]
+  split
+  · simpa using hr
+  · next hlt =>
+    have : k.worst.rank ≤ 1 := hr
+    simp only [Grade.rank] at hlt
+    omega
+
+/-- the invariant behind `C14_partial` holds in every state reached by such a history
+    (`GInv`: soundness and completeness of every file's series sets, no live series
+    tombstoned, no tombstone flags left on tag keys / values, measurement flags agree with
+    the live series, the partition's id set and the files' id sets name the live series, every
+    log file's in-memory index is the replay of its entries, the tag-value cache holds exactly
+    supersets the series file filters). -/
+theorem C14_invariant (ops : List Op) (h : ops.all Allowed = true) :
+    ∃ live, GInv (runState ops) live := by
+  have : ∀ (ops : List Op) (st : State) (k : Spec.C14.Cand), ops.all Allowed = true → Sim k st →
+      ∃ k' live, GInv (ops.foldl (fun s op => (step s op).1) st) live ∧ Sim k' (ops.foldl (fun s op => (step s op).1) st) := by
+    intro ops
+    induction ops with
+    | nil => intro st k _ hs; obtain ⟨live, hg, hw, hr⟩ := hs; exact ⟨k, live, hg, live, hg, hw, hr⟩
+    | cons op rest ih =>
+      intro st k hall hs
+      simp only [List.all_cons, Bool.and_eq_true] at hall
+      obtain ⟨k', _, hs'⟩ := sim_step k st hs op hall.1
+      exact ih _ k' hall.2 hs'
+  obtain ⟨_, live, hg, _⟩ := this ops {} {} h sim_init
+  exact ⟨live, hg⟩
+
+/-- **reopen** (restart): replaying the logs, rebuilding the id set and letting the background
+    compaction run preserves the invariant for the same live set — so every answer
+    characterised by it stays the same. -/
+theorem C14_reopen {st : State} {live : List Nat} (h : GInv st live) : GInv (step st .reopen).1 live :=
+  ginv_reopen h
+
+/-- **compaction**: a log-file compaction or an index-file merge preserves the invariant for
+    the same live set. -/
+theorem C14_compaction {st : State} {live : List Nat} (h : GInv st live) (p level : Nat) :
+    GInv (step st (.compactLog p)).1 live ∧ GInv (step st (.compactLevel p level)).1 live :=
+  ⟨ginv_compactLog h p, ginv_compactLevel h p level⟩
+
+/-- **open = fold of the log**: in every reachable state the in-memory index of each log file
+    is the replay of its entries (so reopening a log file changes nothing), and opening a log
+    truncated to `n` entries yields the fold of those `n` entries (`replay` of the prefix —
+    this is how the model's `crash` is defined; that a strict prefix of an entry's bytes never
+    passes the checksum is the hypothesis under which bytes and entries correspond, checked on
+    the real decoder by the correspondence run at every byte offset generated). -/
+theorem C14_log_is_replay {st : State} {live : List Nat} (h : GInv st live) :
+    ∀ p ∈ st.parts, ∀ f ∈ p.files, f.isLog = true → f.data = replay st.sf f.entries := by
+  intro p hp f hf hl
+  obtain ⟨i, hpi⟩ := pinv_of_mem h hp
+  exact hpi.loginv f hf hl
+
+-- non-vacuity: a history with every kind of allowed operation
+def exampleOps : List Op :=
+  [ .cfg 8, .create 6 3 "m" [("k1", "a")], .create 14 5 "m" [("k1", "b")], .roll 3, .compactLog 3,
+    .dropSeries 6, .tagValues "m" "k1", .reopen, .compactLevel 3 1, .dropMeasurement "m",
+    .create 22 3 "m" [("k1", "a")], .tagValueSeries "m" "k1" "a", .measurements ]
+
+example : exampleOps.all Allowed = true := by decide
 
 end Influx.Props.C14
